@@ -1,6 +1,7 @@
 (* C13 — correspondence check: model trace = observed trace (code 1) and the boolean form of the
    property applied to what the implementation did (codes 10..15). Evaluated with vm_compute. *)
 From V Require Import Base.Common Model.C13_Adder.
+From Coq Require Import MSets.MSetPositive FSets.FMapPositive.
 Open Scope N_scope.
 
 (* ---------- observation as written by the harness ---------- *)
@@ -8,6 +9,7 @@ Open Scope N_scope.
    (< META_BASE); every other CID it sees is decoded as a CBOR link map and numbered >= META_BASE;
    tbl gives the links of each. resolve turns them into the symbolic form of the model. *)
 Definition META_BASE : N := 1000000.
+Definition nrange (a n : N) : list N := map (fun k => a + N.of_nat k) (seq 0 (N.to_nat n)).
 
 Inductive oevent :=
 | OAlloc
@@ -15,6 +17,7 @@ Inductive oevent :=
 | OPin (c : N) (ty : ptype) (nm : pname) (allocs : list N) (depth : Z) (ref : option N)
        (rmin rmax : Z) (ssize : N) (kept : bool).
 Inductive ores := OOk (root : N) | OErr (class : N).
+Definition oputs (c0 n : N) (ds : list N) : list oevent := map (fun c => OPut c ds) (nrange c0 n).
 
 Record input := mk_input { i_shard : bool; i_rmin : Z; i_rmax : Z; i_limit : N; i_maxlinks : N; i_local : bool;
                            i_allocs : list (option (list N)); i_putf : list (N * N * outcome); i_pinf : list N;
@@ -22,6 +25,9 @@ Record input := mk_input { i_shard : bool; i_rmin : Z; i_rmax : Z; i_limit : N; 
 
 Definition mkb (c s : N) (l : list N) : block := mkblock c s l false.
 Definition mkbs (c s : N) (l : list N) : block := mkblock c s l true.
+
+(* compact notation used by the harness for long runs *)
+Definition bseg (c0 n s : N) : list block := map (fun c => mkb c s []) (nrange c0 n).
 
 Fixpoint putf_lookup (fs : list (N * N * outcome)) (j d : N) : outcome :=
   match fs with
@@ -124,6 +130,19 @@ Fixpoint dedup_from (seen : list N) (l : list N) : list N :=
   end.
 Definition dedup (l : list N) : list N := dedup_from [] l.
 
+(* the same function with a logarithmic set (Proofs/C13_Adder.v: dedupF_eq), and other lookup tables, for evaluation speed *)
+Fixpoint dedupF_from (seen : PositiveSet.t) (l : list N) : list N :=
+  match l with
+  | [] => []
+  | x :: r => if PositiveSet.mem (key x) seen then dedupF_from seen r else x :: dedupF_from (PositiveSet.add (key x) seen) r
+  end.
+Definition dedupF (l : list N) : list N := dedupF_from PositiveSet.empty l.
+Definition set_of (l : list N) : PositiveSet.t := fold_left (fun s x => PositiveSet.add (key x) s) l PositiveSet.empty.
+Definition memS (x : N) (s : PositiveSet.t) : bool := PositiveSet.mem (key x) s.
+Definition size_tbl (bs : list block) : PositiveMap.t N :=
+  fold_right (fun b m => PositiveMap.add (key (bcid b)) (bsize b) m) (PositiveMap.empty N) bs.   (* first occurrence wins *)
+Definition size_ofF (tb : PositiveMap.t N) (c : N) : N := match PositiveMap.find (key c) tb with Some x => x | None => 0 end.
+
 Fixpoint flatten_data (c : cid) : list N :=
   match c with CData n => [n] | CNode ls => flat_map flatten_data ls end.
 
@@ -160,10 +179,11 @@ Definition delivered_okb (i : input) (r : result) (t : list event) : bool :=
   let e := env_of i in
   let ps := puts_from 0 t in
   let dl := data_of ps in
-  listN_eqb dl (if i_shard i then dedup (cids_of (i_stream i)) else cids_of (i_stream i))
+  let ds := set_of dl in
+  listN_eqb dl (if i_shard i then dedupF (cids_of (i_stream i)) else cids_of (i_stream i))
   && forallb (fun x => match x with (_, ds, j) => existsb (fun d => negb (is_err (e_put e j d))) ds end) ps
-  && memN (i_root i) dl
-  && forallb (fun b => subsetb (blinks b) dl) (i_stream i)
+  && memS (i_root i) ds
+  && forallb (fun b => forallb (fun l => memS l ds) (blinks b)) (i_stream i)
   && (if i_shard i then
         forallb (fun p => match pty p with
                           | TClusterDAG | TShard => forallb (fun n => existsb (fun x => cid_eqb n (fst (fst x))) ps) (subnodes (pcid p))
@@ -174,7 +194,7 @@ Definition delivered_okb (i : input) (r : result) (t : list event) : bool :=
 Definition partition_okb (i : input) (r : result) (t : list event) : bool :=
   if negb (is_ok r) || negb (i_shard i) then true else
   let sp := filter is_shard_pin (ok_pins t) in
-  listN_eqb (flat_map (fun p => flatten_data (pcid p)) sp) (dedup (cids_of (i_stream i)))
+  listN_eqb (flat_map (fun p => flatten_data (pcid p)) sp) (dedupF (cids_of (i_stream i)))
   && forallb (fun p => match pty p with
                        | TClusterDAG => cid_eqb (pcid p) (dag_root (i_maxlinks i) (map pcid sp))
                        | _ => true end) (ok_pins t).
@@ -184,9 +204,10 @@ Definition size_of (bs : list block) (c : N) : N :=
   match find (fun b => N.eqb (bcid b) c) bs with Some b => bsize b | None => 0 end.
 Definition under_limit_okb (i : input) (r : result) (t : list event) : bool :=
   if negb (i_shard i) then true else
+  let tb := size_tbl (i_stream i) in
   forallb (fun p => if is_shard_pin p then
                       (pssize p <? i_limit i)
-                      && N.eqb (pssize p) (fold_left (fun a c => a + size_of (i_stream i) c) (flatten_data (pcid p)) 0)
+                      && N.eqb (pssize p) (fold_left (fun a c => a + size_ofF tb c) (flatten_data (pcid p)) 0)
                     else true) (all_pins t).
 
 (* 13 shard_depth_covers (every shard pin that was issued) *)
